@@ -258,9 +258,10 @@ func execute(x *explore.X, req request, nExt int) outcome {
 		dot := strings.IndexByte(f[0], '.')
 		faulty[f[0][:dot]] = true
 		switch f[0][dot+1:] {
-		case "HasResult", "GetResult":
+		case "HasResult", "GetResult", "ExecutionFinish", "ResolveFieldDidStart", "ResolveFieldFinish":
+			// execution has been attempted by then: results are still collected
 		default:
-			// a failing start or finish hook may legitimately end the pipeline early
+			// a failing hook of an earlier phase may legitimately end the pipeline early
 			abortingStart = true
 		}
 	}
